@@ -350,6 +350,16 @@ class Encoder(object):
             self.align_always()
             self.append_non_negative_binary_integer(value, number_of_bits)
 
+    def append_semi_constrained_whole_number(self, value):
+        """Append given offset from the lower bound, in the minimum
+        number of octets preceded by their number.
+
+        """
+
+        number_of_bytes = max((value.bit_length() + 7) // 8, 1)
+        self.append_length_determinant(number_of_bytes)
+        self.append_non_negative_binary_integer(value, 8 * number_of_bytes)
+
     def append_unconstrained_whole_number(self, value):
         number_of_bits = value.bit_length()
 
@@ -524,6 +534,11 @@ class Decoder(object):
             value = self.read_non_negative_binary_integer(number_of_bits)
 
         return value + minimum
+
+    def read_semi_constrained_whole_number(self):
+        length = self.read_length_determinant()
+
+        return self.read_non_negative_binary_integer(8 * length)
 
     def read_unconstrained_whole_number(self):
         length = self.read_length_determinant()
@@ -1018,10 +1033,13 @@ class Integer(Type):
     def set_restricted_to_range(self, minimum, maximum, has_extension_marker):
         self.has_extension_marker = has_extension_marker
 
+        if minimum != 'MIN':
+            # Semi-constrained if there is no upper bound.
+            self.minimum = minimum
+
         if minimum == 'MIN' or maximum == 'MAX':
             return
 
-        self.minimum = minimum
         self.maximum = maximum
         size = self.maximum - self.minimum
         self.number_of_bits = integer_as_number_of_bits(size)
@@ -1032,9 +1050,13 @@ class Integer(Type):
             number_of_bits = ((self.number_of_bits + 7) // 8 - 1).bit_length()
             self.number_of_indefinite_bits = number_of_bits
 
+    def is_in_root(self, data):
+        return ((self.minimum is None or data >= self.minimum)
+                and (self.maximum is None or data <= self.maximum))
+
     def encode(self, data, encoder):
         if self.has_extension_marker:
-            if self.minimum <= data <= self.maximum:
+            if self.is_in_root(data):
                 encoder.append_bit(0)
             else:
                 encoder.append_bit(1)
@@ -1044,7 +1066,12 @@ class Integer(Type):
 
         if self.number_of_bits is None:
             encoder.align()
-            encoder.append_unconstrained_whole_number(data)
+
+            if self.minimum is None:
+                encoder.append_unconstrained_whole_number(data)
+            else:
+                encoder.append_semi_constrained_whole_number(
+                    data - self.minimum)
         else:
             if self.number_of_indefinite_bits is None:
                 number_of_bits = self.number_of_bits
@@ -1073,7 +1100,11 @@ class Integer(Type):
         if self.number_of_bits is None:
             decoder.align()
 
-            return decoder.read_unconstrained_whole_number()
+            if self.minimum is None:
+                return decoder.read_unconstrained_whole_number()
+            else:
+                return (self.minimum
+                        + decoder.read_semi_constrained_whole_number())
         else:
             if self.number_of_indefinite_bits is None:
                 number_of_bits = self.number_of_bits
